@@ -490,7 +490,7 @@ def battery():
         M("gate accepts partial price", CR, "        if (self._get_credit_units() >=\n                self.credit_units_per_game):\n            self.info_log(\"Received request to start game.", "        if (self._get_credit_units() >\n                0):\n            self.info_log(\"Received request to start game.", "TABLE-10"),
         M("player charged a unit", CR, "            new_credit_units = (self._get_credit_units() -\n                                self.credit_units_per_game)", "            new_credit_units = (self._get_credit_units() -\n                                self.credit_unit)", "TABLE-10"),
         M("charge handler survives free play", CR, "        self.machine.events.remove_handler(self._player_added)\n", "", "TABLE-10"),
-        M("gates registered twice", CR, "        # prevent duplicate handlers\n        self._remove_event_handlers()\n", "", "TABLE-10"),
+        M("gates registered twice", CR, "        self._enable_credit_handlers()\n        self._remove_event_handlers()\n", "        self._enable_credit_handlers()\n", "TABLE-10"),
         M("coin audited with units", CR, "        self._audit(value, audit_class, key_name)", "        self._audit(value / self.credit_unit, audit_class, key_name)", "DOM-38"),
         M("event credits earn tier bonus", CR, "self._add_credit_units(credit_units=credits_value * self.credit_units_per_game, price_tiering=False)", "self._add_credit_units(credit_units=credits_value * self.credit_units_per_game)", "DOM-38"),
         M("service credit tiered", CR, "        self.add_credit(price_tiering=False)", "        self.add_credit()", "DOM-38"),
